@@ -2115,10 +2115,9 @@ def eqn2_helpers(e, bitslice=False, widening=False):
     "helpers for simplifying binary expressions"
     threshold = conf.Cas.complexity
     if threshold>0:
-        if complexity(e.r) > threshold:
-            e.r = top(e.r.size)
-        if complexity(e.l) > threshold:
-            e.l = top(e.l.size)
+        # (do not write top into e.l/e.r: e may be shared with other expressions)
+        if complexity(e.r) > threshold or complexity(e.l) > threshold:
+            return top(e.size)
     if e.r._is_top or e.l._is_top:
         return top(e.size)
     # if e := ((a l.op cst) e.op r)
